@@ -617,6 +617,89 @@ Cfg draw(uint64_t seed, uint64_t index) {
 
 }  // namespace
 
+// ---------------------------------------------------------------------------------------------
+// "storm" mode: sustained local spawning against a continuously sweeping balance thread.
+// Added after the seeded change C07-a2 (the owner pops its local queue with the NON-concurrent
+// flags when stealing is off — although the balance thread is still a second consumer) escaped
+// the general episodes, whose local queues never hold more than a few dozen tasks. Here 2-8
+// workers each run spawner tasks that push 8-24 children into their own local queue while the
+// balancer (interval 0 or 100 us) keeps draining those queues into a large global queue;
+// stealing on and off. Oracle: every task runs exactly once (per-task counters), all of them
+// by the time the round barrier / stop() returns; a crash or sanitizer report is a violation.
+static void run_storm(uint64_t seed, uint64_t index) {
+  vf::Rng r(vf::mix(seed, index, 0x5707));
+  int workers = int(r.range(2, 8));
+  bool steal = r.chance(1, 2);
+  int balance_us = int(r.pick<int>({0, 0, 100}));
+  uint32_t spawners = uint32_t(r.range(8, 48)), kids = uint32_t(r.range(8, 24)), rounds = uint32_t(r.range(4, 16));
+  uint32_t per_round = spawners * (kids + 1), total = per_round * rounds;
+  std::string desc = vf::fmt("storm ep=%lu seed=%lu workers=%d steal=%d balance_us=%d spawners=%u kids=%u rounds=%u",
+                             (unsigned long)index, (unsigned long)seed, workers, int(steal), balance_us, spawners, kids, rounds);
+  vf::watchdog().set_context(desc);
+  std::string pol = vf::draw_policy(r, {"exec:local_before_push", "exec:balance_moved", "exec:local_empty", "bq:try_before_cas"}, 400, 3000);
+  std::unique_ptr<std::atomic<uint8_t>[]> ran(new std::atomic<uint8_t>[total]);
+  for (uint32_t i = 0; i < total; ++i) ran[i].store(0, std::memory_order_relaxed);
+  std::atomic<uint32_t> done {0}, twice {0}, not_in_pool {0};
+  ThreadPoolExecutor p;
+  p.set_worker_number(size_t(workers));
+  p.set_global_capacity(8192);
+  p.set_local_capacity(64);
+  p.set_enable_work_stealing(steal);
+  p.set_balance_interval(std::chrono::microseconds(balance_us));
+  if (p.start() != 0) { vf::inconclusive("storm: executor did not start"); return; }
+  vf::watchdog().arm(true);
+  auto run_one = [&](uint32_t id) {
+    if (ran[id].fetch_add(1, std::memory_order_relaxed) != 0) twice.fetch_add(1, std::memory_order_relaxed);
+    if (!p.is_running_in()) not_in_pool.fetch_add(1, std::memory_order_relaxed);
+    done.fetch_add(1, std::memory_order_release);
+    vf::progress();
+  };
+  for (uint32_t rd = 0; rd < rounds && !vf::failed(); ++rd) {
+    uint32_t base = rd * per_round;
+    for (uint32_t sidx = 0; sidx < spawners; ++sidx) {
+      uint32_t sid = base + sidx * (kids + 1);
+      int rc = p.submit([&, sid] {
+        for (uint32_t k = 1; k <= kids; ++k) {
+          uint32_t cid = sid + k;
+          if (p.submit([&, cid] { run_one(cid); }) != 0) vf::violation("storm:child-submit-refused", "submit from a worker failed", desc);
+        }
+        run_one(sid);
+      });
+      if (rc != 0) vf::violation("storm:submit-refused", "submit to a running pool failed", desc);
+    }
+    // round barrier: everything submitted in this round has run (stuck rule through the watchdog)
+    uint32_t want = base + per_round;
+    while (done.load(std::memory_order_acquire) < want && !vf::failed()) {
+      if (twice.load(std::memory_order_relaxed) != 0) break;
+      vf::raw_sleep_us(200);
+    }
+    if (twice.load(std::memory_order_relaxed) != 0) break;
+  }
+  p.stop();
+  vf::watchdog().arm(false);
+  vf::disable_policy();
+  uint32_t lost = 0, dup = 0, first_bad = UINT32_MAX;
+  uint32_t expect_upto = std::min<uint32_t>(total, ((done.load() + per_round - 1) / per_round) * per_round);
+  for (uint32_t i = 0; i < expect_upto; ++i) {
+    uint8_t c = ran[i].load(std::memory_order_relaxed);
+    if (c == 0) { ++lost; first_bad = std::min(first_bad, i); }
+    if (c > 1) { ++dup; first_bad = std::min(first_bad, i); }
+  }
+  if (dup != 0 || twice.load() != 0)
+    vf::violation("storm:task-ran-twice", vf::fmt("%u task(s) ran more than once", std::max(dup, twice.load())),
+                  desc + vf::fmt("\npolicy=[%s] first bad task id=%u", pol.c_str(), first_bad));
+  else if (lost != 0)
+    vf::violation("storm:task-lost", vf::fmt("%u accepted task(s) never ran although stop() returned", lost),
+                  desc + vf::fmt("\npolicy=[%s] first bad task id=%u", pol.c_str(), first_bad));
+  if (not_in_pool.load() != 0)
+    vf::violation("storm:not-running-in-executor", "a task ran on a thread that does not report is_running_in()", desc);
+  VF_COUNT_N("obs:storm_tasks", total);
+  VF_COUNT("obs:storm_episodes");
+  uint64_t moved = vf::counter_value("point:exec:balance_moved");
+  vf::evaluated(vf::mix(0x5707, uint64_t(workers) * 4 + uint64_t(steal) * 2 + (balance_us ? 1 : 0), spawners, kids * 100 + rounds), moved > 0);
+  if (index < 2) vf::sample(vf::fmt("{\"mode\": \"storm\", \"config\": %s, \"tasks\": %u, \"policy\": %s}", vf::jstr(desc).c_str(), total, vf::jstr(pol).c_str()));
+}
+
 int main(int argc, char** argv) {
   vf::init(argc, argv, "C07", "c07_executor");
   auto& a = vf::args();
@@ -641,6 +724,17 @@ int main(int argc, char** argv) {
     return o;
   };
   wd.start();
+  if (a.mode == "storm") {
+    wd.classify = []() -> std::string { return "stuck:storm-round-or-stop-never-finished"; };
+    wd.dump_extra = nullptr;
+    uint64_t ns = vf::budget(40, 1500);
+    for (uint64_t e = 0; e < ns && !vf::failed(); ++e) {
+      if (a.only_episode >= 0 && uint64_t(a.only_episode) != e) continue;
+      run_storm(a.seed, e);
+    }
+    wd.shutdown();
+    return vf::finish();
+  }
   uint64_t n = vf::budget(150, 6000);
   for (uint64_t e = 0; e < n && !vf::failed(); ++e) {
     if (a.only_episode >= 0 && uint64_t(a.only_episode) != e) continue;
